@@ -53,6 +53,17 @@ def OTHER_CALLS_SAME(eng, st, record):
                       [a["gt"][n], a["ph"][n], _tagnone(eng, st)[n], owner[n]])
 
 
+@R.spec
+def gt_ascending_if_known(eng, st, c):
+    """a fully known genotype lists its alleles in ascending order (what the HP encoding is read against, see _extract_HP_phase)"""
+    a = _arrs(eng, st)
+    c = to_z3(c)
+    i, j = z3.Ints(fresh_name("i") + " " + fresh_name("j"))
+    val = lambda k: PM.OPTINT.dt.val(a["gt"][c][k])
+    known = z3.ForAll([i], z3.Implies(z3.And(i >= 0, i < a["gtlen"][c]), z3.Not(PM.OPTINT.dt.is_none(a["gt"][c][i]))))
+    return z3.Implies(z3.And(z3.Not(a["none"][c]), known), z3.ForAll([i, j], z3.Implies(z3.And(0 <= i, i < j, j < a["gtlen"][c]), val(i) <= val(j))))
+
+
 _IS_TARGET = "exists(s, 0 <= s and s < %s and samples[s] == j)"
 _POST = ("forall(j, implies(0 <= j and j < len(record.calls), "
          "ite(" + _IS_TARGET + ", target_done(record.calls[j], record), untouched(record.calls[j]))))")
@@ -66,9 +77,11 @@ R.contract(
         ("samples-distinct", "forall(s, s2, implies(0 <= s and s < s2 and s2 < len(samples), samples[s] != samples[s2]))"),
         ("not-written-yet", "not record.frozen"),
     ],
-    ensures=[("old-phase-removed-for-targets-only", _POST % "len(samples)"), ("calls-of-other-records-untouched", "OTHER_CALLS_SAME(record)")],
+    ensures=[("old-phase-removed-for-targets-only", _POST % "len(samples)"), ("calls-of-other-records-untouched", "OTHER_CALLS_SAME(record)"),
+             ("target-genotypes-ascending", "implies(tag('GT') in record.fmt, forall(j, implies(0 <= j and j < len(record.calls) and " + (_IS_TARGET % "len(samples)") + ", gt_ascending_if_known(record.calls[j]))))")],
     modifies=["Call.gt", "Call.gt_none", "Call.ph", "Call.tag_none"],
-    loops={0: dict(index="si", modifies=["Call.gt", "Call.gt_none", "Call.ph", "Call.tag_none"], inv=[("progress", _POST % "si"), ("others", "OTHER_CALLS_SAME(record)")])},
+    loops={0: dict(index="si", modifies=["Call.gt", "Call.gt_none", "Call.ph", "Call.tag_none"], inv=[("progress", _POST % "si"), ("others", "OTHER_CALLS_SAME(record)"),
+                                                                                                                 ("ascending", "implies(tag('GT') in record.fmt, forall(j, implies(0 <= j and j < len(record.calls) and " + (_IS_TARGET % "si") + ", gt_ascending_if_known(record.calls[j]))))")])},
     props=["C09", "C04"])
 
 
